@@ -257,3 +257,14 @@ func VH_C09_tags() {
 	}
 	zzverif.Reach("C09/tags")
 }
+
+// Durations: the integer form is the exact quotient, encoded like AppendInt64 encodes it.
+func VH_C09_duration_int() {
+	e := Encoder{}
+	d, unit := time.Duration(zzverif.I64()), time.Duration(zzverif.I64())
+	zzverif.Assume(unit > 0)
+	got := e.AppendDuration(nil, d, unit, true, 0)
+	want := e.AppendInt64(nil, int64(d/unit))
+	zzverif.Assert(zzverif.EqualBytes(got, want), "AppendDuration (integer form): the exact quotient d/unit as a CBOR integer")
+	zzverif.Reach("C09/duration-int")
+}
